@@ -52,10 +52,10 @@ m = dict(
                                  "exact symbolic scalars; every contract clause on every path is a VC over the reals "
                                  "(normaliser + z3), for all inputs of one configuration"),
              dict(name="E0-enumeration", path="contracts/C17_enum.py", serves_properties=sorted(set([p for k, v in engines.items() if k.startswith("E0") for p in v]
-                                                                                                    + ["C04", "C05", "C06", "C10", "C11"])),
+                                                                                                    + ["C04", "C05", "C06", "C10", "C11", "C15", "C18"])),
                   kind_free_text="bounded stand-in: runtime contracts evaluated natively on the real code - complete enumeration of a finite "
                                  "domain (the catalogues, C17), seeded instance sweeps for what the proofs of C04, C05, C06, C10, C11 leave open "
-                                 "(contracts/C04_native.py, C05_native.py, C06_native.py, C11_native.py); reported as bounded-stand-ins, never counted as proved")],
+                                 "(contracts/C04_native.py, C05_native.py, C06_native.py, C11_native.py, C18_native.py); reported as bounded-stand-ins, never counted as proved")],
     checks=checks, not_applicable=na,
     notes="Exit codes of every check: 0 held | 1 violation (VIOLATION line) | 2 undecided | 3 checker fault. See DESIGN.md.")
 json.dump(m, open("MANIFEST.json", "w"), indent=1)
